@@ -93,7 +93,7 @@ func (s *SlipMuxReader) ReadPacket() ([]byte, byte, error) {
 			return nil, 0, err
 		}
 		buf.Write(p)
-		if !isPrefix && len(p) > 0 {
+		if !isPrefix && buf.Len() > 0 {
 			break
 		}
 	}
